@@ -133,6 +133,22 @@ EQUIV = [
     ("sdes-item-end-flip", "src/sdes.rs", "        if end > data.len() {", "        if data.len() < end {"),
     ("sdes-priv-check-len", "src/sdes.rs", "            if value_offset as usize > end {", "            if usize::from(value_offset) > item.data.len() {"),
     ("sdes-value-split-at", "src/sdes.rs", "            &self.data[offset..]", "            self.data.split_at(offset).1"),
+    ("bye-writer-while-let", "src/bye.rs", "        for ssrc in self.sources.iter() {",
+     "        let mut sources = self.sources.iter();\n        while let Some(ssrc) = sources.next() {"),
+    ("nack-size-manual-count", "src/feedback/nack.rs", "        let entries = self.entries().count();",
+     "        let mut entries = 0;\n        for _ in self.entries() {\n            entries += 1;\n        }"),
+    ("sdes-chunk-length-sum", "src/sdes.rs", """                .fold(0, |acc, item| acc + 2 + item.length());""",
+     """                .map(|item| 2 + item.length())\n                .sum::<usize>();"""),
+    ("compound-last-if", "src/compound.rs", "        let last = self.packets.len().saturating_sub(1);",
+     "        let last = if self.packets.is_empty() { 0 } else { self.packets.len() - 1 };"),
+    ("compound-padding-is-some-and", "src/compound.rs", "            if packet.get_padding().unwrap_or(0) > 0 && idx != last {",
+     "            if idx != last && packet.get_padding().is_some_and(|p| p > 0) {"),
+    ("compound-writer-local-end", "src/compound.rs", "            offset += packet.write_into_unchecked(&mut buf[offset..offset + req_size]);",
+     "            let end = offset + req_size;\n            packet.write_into_unchecked(&mut buf[offset..end]);\n            offset = end;"),
+    ("sdes-writer-split", "src/sdes.rs", "            idx += chunk.write_into_unchecked(&mut buf[idx..]);",
+     "            let n = chunk.write_into_unchecked(&mut buf[idx..]);\n            idx += n;"),
+    ("sdes-size-explicit-add", "src/sdes.rs", "            chunks_size += chunk.calculate_size()?;",
+     "            let sz = chunk.calculate_size()?;\n            chunks_size = chunks_size + sz;"),
 ]
 
 # (name, file, old, new, properties expected to report) — hand-written breaking edits (the sub-agent ones are in seeded/)
